@@ -366,10 +366,12 @@ def chainsettle(rng):
         a, b = rng.choice(dirs)
         ops.append({"op": "force_close", "a": a, "b": b})
         ops += _deliveries(rng, dirs, rng.randrange(0, 4))
-    # recipients make up their minds before the chain moves on
+    # recipients make up their minds before the chain moves on (a user who has failed a payment does not claim it
+    # later: after a restart from an older manager the library would show it as claimable again)
+    failed = {o["pay"] for o in ops if o["op"] == "fail"}
     for k in range(npay):
         if rng.random() < 0.7:
-            ops.append({"op": "claim" if rng.random() < 0.7 else "fail", "pay": k})
+            ops.append({"op": "claim" if rng.random() < 0.7 and k not in failed else "fail", "pay": k})
     ops += _deliveries(rng, dirs, rng.randrange(0, 6))
     if rng.random() < 0.35:
         # a user who keeps refusing payment events while the chain resolves the HTLCs, then a restart from the
